@@ -102,8 +102,17 @@ pub fn howl_child(scenario: &str) -> ! {
         // a session whose handler panicked is over (its task unwound, the server side of the connection is gone): it is not in flight
         let mut live: Vec<usize> = (0..sessions.len()).filter(|i| boom != Some(*i)).collect();
         let returned_with_sessions_open = !live.is_empty() && RETURNED.load(Ordering::SeqCst);
-        // a new connection after the interrupt must not be served
-        let served_after_interrupt = match std::net::TcpStream::connect(("127.0.0.1", port)) { Ok(mut s) => ask(&mut s, "/"), Err(_) => false };
+        // a new connection after the interrupt must not be served, and (while sessions are still open) must not even be accepted: the listening
+        // socket is closed.  The accept loop is given up to 2 s to notice the interrupt before a successful connect counts.
+        let mut served_after_interrupt = false;
+        let mut accepting_after_interrupt = true;
+        for _ in 0..7 {
+            match std::net::TcpStream::connect(("127.0.0.1", port)) {
+                Ok(mut s) => { if ask(&mut s, "/") { served_after_interrupt = true } }
+                Err(_) => { accepting_after_interrupt = false; break }
+            }
+            std::thread::sleep(Duration::from_millis(50));
+        }
         let mut returned_early = returned_with_sessions_open;
         for (n, i) in order.iter().enumerate() {
             if let Some(s) = sessions.get_mut(*i).and_then(Option::take) { drop(s) }
@@ -114,7 +123,7 @@ pub fn howl_child(scenario: &str) -> ! {
         }
         let mut waited = 0;
         while !RETURNED.load(Ordering::SeqCst) && waited < 3000 { std::thread::sleep(Duration::from_millis(20)); waited += 20 }
-        println!("{}", json!({"served": served, "returned_early": returned_early, "served_after_interrupt": served_after_interrupt, "returned_after_all": RETURNED.load(Ordering::SeqCst)}));
+        println!("{}", json!({"served": served, "returned_early": returned_early, "served_after_interrupt": served_after_interrupt, "accepting_after_interrupt": accepting_after_interrupt, "returned_after_all": RETURNED.load(Ordering::SeqCst)}));
         std::process::exit(0);
     });
     let rt = tokio::runtime::Builder::new_current_thread().enable_all().build().unwrap();
@@ -136,7 +145,13 @@ fn howl(sc: &Value) -> Value {
 
 fn howl_once(sc: &Value) -> Value {
     use std::io::Read;
-    let mut child = match std::process::Command::new(std::env::current_exe().unwrap()).arg("C18howl").arg(sc.to_string())
+    // `ignored`: the process is started with SIGINT ignored (a background job of a non-interactive shell, nohup-like launchers)
+    let exe = std::env::current_exe().unwrap();
+    let mut cmd = if sc["ignored"].as_bool() == Some(true) {
+        let mut c = std::process::Command::new("sh");
+        c.arg("-c").arg("trap '' INT; exec \"$0\" C18howl \"$1\"").arg(&exe).arg(sc.to_string()); c
+    } else { let mut c = std::process::Command::new(&exe); c.arg("C18howl").arg(sc.to_string()); c };
+    let mut child = match cmd
         .stdout(std::process::Stdio::piped()).stderr(std::process::Stdio::null()).spawn() { Ok(c) => c, Err(e) => return json!({"error": e.to_string()}) };
     let t0 = std::time::Instant::now();
     loop {
